@@ -619,10 +619,19 @@ func c12(r *Run) {
 		}
 		// result stored to o.v comes from a checked call, on its nil edge; error stored to o.err
 		okk := bad == ""
-		for _, e := range findEffects(f, "store p0.v = *") {
-			st := e.Ins.(*ssa.Store)
-			src := sourceCall(st.Val)
-			if src == nil || !strings.HasPrefix(calleeName(src.(ssa.CallInstruction)), "github.com/ava-labs/avalanchego/utils/math.") || !onlyViaSuccess(src.(ssa.CallInstruction), st, true) {
+		stv := findEffects(f, "store p0.v = *")
+		if len(stv) == 0 {
+			okk = false
+		}
+		for _, e := range stv {
+			// decided on the (lifted) effect's value term and conditions, so that the store may sit in a helper
+			val := strings.TrimPrefix(e.Str, "store p0.v = ")
+			if !strings.HasPrefix(val, "ago/utils/math.") || !strings.HasSuffix(val, "#0") {
+				okk = false
+				continue
+			}
+			errT := strings.TrimSuffix(val, "#0") + "#1"
+			if !hasStr(e.Conds(), errT+" == nil") && !hasStr(e.Conds(), "nil == "+errT) {
 				okk = false
 			}
 			if !hasStr(e.Conds(), "nil == p0.err") && !hasStr(e.Conds(), "p0.err == nil") {
